@@ -179,6 +179,7 @@ var c07Operands = []opndKind{
 	{"imm-small", "5", false}, {"imm-mid", "0x3f8", false}, {"imm-large", "0x12345", false}, {"string", "\"ab\"", false},
 	{"mem", "[BX]", false}, {"mem8", "BYTE [SI+4]", false}, {"mem32", "DWORD [EBX+8]", false},
 	{"label", "deflabel", false}, {"equ", "DEFEQU", false}, {"undef-label", "nolabel", true}, {"undef-mem", "[nowhere]", true}, {"undef-expr", "NOEQU+1", true}, {"far", "8:0x10", false},
+	{"far-undef", "8:nowhere", true}, {"far-dword-undef", "DWORD 2*8:nowhere", true}, {"undef-mem-disp", "[BX+nowhere]", true},
 }
 
 // mnemonics with a fixed operand count in every NASK/Intel form
